@@ -20,13 +20,14 @@ from . import ref_exec as RX
 EXEC_SDL = '''
 enum Color { RED GREEN BLUE }
 scalar Any
-interface Named { name: String }
+interface Named { name: String  tag(prefix: String = "n"): String }
 interface Owned { owner: Person }
-type Dog implements Named & Owned { name: String  barks: Boolean  owner: Person  tricks: [String!] }
-type Cat implements Named & Owned { name: String  lives: Int!  owner: Person }
+type Dog implements Named & Owned { name: String  tag(prefix: String = "dog", loud: Boolean = false): String  barks: Boolean  owner: Person  tricks: [String!] }
+type Cat implements Named & Owned { name: String  tag(prefix: String = "cat"): String  lives: Int!  owner: Person }
 union Pet = Dog | Cat
 type Person implements Named {
   name: String
+  tag(prefix: String = "p"): String
   age: Int
   pets: [Pet!]
   best: Pet
@@ -38,7 +39,7 @@ type Person implements Named {
   scores: [Int!]!
   lim(a: Int! = 5, tags: [String]): Int
 }
-input Filter { min: Int = 1  tags: [String!]  color: Color }
+input Filter { min: Int = 1  tags: [String!]  color: Color  sub: Filter  subs: [Filter!] }
 type Query {
   me: Person
   pet: Pet
@@ -366,6 +367,10 @@ OPERATIONS = [
     ("query ($a: Boolean!, $b: Boolean!) { me { ...P @skip(if: $a) ... on Person { ...P @skip(if: $b) } } } fragment P on Person { name }", {"a": True, "b": False}),
     ("query ($x: Int) { people { lim(a: $x) name friends { lim(a: $x) } } }", {"x": None}),
     ("query ($x: Int, $t: String) { people { lim(a: $x, tags: [$t, \"k\"]) } me { lim } }", {"x": 3, "t": None}),
+    # one field node executed against several runtime types whose definitions of the field differ in argument defaults / extra arguments
+    ("{ named { tag } pet { ... on Named { tag } } owned { ... on Named { tag } } }", {}),
+    ("query ($p: String, $q: String = \"q\") { named { tag(prefix: $p) t2: tag(prefix: $q) ...T } people { best { ...T } pets { ...T } } } fragment T on Named { t3: tag }", {}),
+    ("{ people { pets { ... on Named { tag } ... on Dog { l: tag(loud: true) } } best { ... on Named { tag(prefix: \"x\") } } } me { tag } }", {}),
     ("mutation { a(n: 1) b { name } c d }", {}),
     ("mutation M($n: Int = 2) { x: a(n: $n) y: a(n: 3) d }", {}),
 ]
@@ -398,6 +403,9 @@ def worlds_for(schema, query, variables, operation_name=None, with_boom=False, l
             out.append(("void@%s" % (path,), {path: ("value", RX.VOID)}))       # serialises to null although the resolver returned a value
         if with_boom:
             out.append(("boom@%s" % (path,), {path: ("boom", "unexpected")}))
+            # a resolver result the leaf type cannot serialise: not a field error - the whole request fails, in every configuration
+            if getattr(inner, "name", None) in ("Int", "Color"):
+                out.append(("badleaf@%s" % (path,), {path: ("value", "NOT_A_MEMBER")}))
     if limit is not None and len(out) > limit:
         step = len(out) / float(limit)
         out = [out[int(i * step)] for i in range(limit)]
